@@ -17,10 +17,10 @@ Next == t + Shards <= N /\ t' = t + Shards
 Spec == Init /\ [][Next]_t
 
 C03_Failures(r) ==
-  LET want == Strip(r.tree) IN
+  LET want == Strip(Unflat(r.tree)) IN
   UNION {
     (IF r.rts[c].nerr = 0 THEN {} ELSE {"printed_code_does_not_parse"})
-    \cup (IF r.rts[c].nerr > 0 \/ Strip(r.rts[c].tree) = want THEN {} ELSE {"reparsed_tree_has_another_shape"})
+    \cup (IF r.rts[c].nerr > 0 \/ Strip(Unflat(r.rts[c].tree)) = want THEN {} ELSE {"reparsed_tree_has_another_shape"})
     \cup (IF r.rts[c].nerr > 0 \/ r.rts[c].out2 = r.rts[c].out THEN {} ELSE {"compiling_again_changes_the_output"})
     : c \in 1..Len(r.rts)}
 
